@@ -9,6 +9,7 @@ fn main() {
     match which.to_lowercase().as_str() {
         "c01" => checks::c01::main(&a),
         "c02" => checks::c02::main(&a),
+        "c04" => checks::c04::main(&a),
         other => report::machinery(&format!("unknown check {other}")),
     }
 }
